@@ -478,6 +478,63 @@ def fam_callpaths(arg):
     return acc.result()
 
 
+SELFCOUNT = [
+    ('sort-comparator', "function cmp(a, b):\n    systemLog('c' + a + ',' + b)\n    return a - b\nendfunction\nss = arraySort(arrayNew(3, 1, 2, 5, 4), cmp)\nsystemLog('end')\n"),
+    ('sort-comparator-in-return', "function cmp(a, b):\n    systemLog('c' + a + ',' + b)\n    return a - b\nendfunction\nreturn arraySort(arrayNew(3, 1, 2), cmp)\n"),
+    ('sort-comparator-in-function', "function cmp(a, b):\n    systemLog('c' + a + ',' + b)\n    nn = a - b\n    return nn\nendfunction\nfunction run():\n    return arraySort(arrayNew(2, 1, 3), cmp)\nendfunction\nrr = run()\nsystemLog('end')\n"),
+    ('datasort-then-filter-callback', "function keep(a):\n    systemLog('k' + a)\n    return a > 1\nendfunction\ndd = dataSort(arrayNew(objectNew('a', 2), objectNew('a', 1)), arrayNew(arrayNew('a')))\nee = dataFilter(dd, 'keep(a)')\nsystemLog('end')\n"),
+    ('partial-comparator', "function cmp3(k, a, b):\n    systemLog('c' + a + ',' + b)\n    return (a - b) * k\nendfunction\nss = arraySort(arrayNew(3, 1, 2), systemPartial(cmp3, 1))\nsystemLog('end')\n"),
+]
+
+
+def check_selfcount(case, acc):
+    """Reference-free: scripts whose callback count depends on a library algorithm (sorting). N and the complete
+    behaviour come from the implementation's own unlimited run; every smaller limit must abort exactly at L + 1."""
+    bs = load_impl()
+    name, src = SELFCOUNT[case['i']]
+    model = bs.parse_script(src)
+    full = run_impl(model, [], 10 ** 9)
+    c2 = dict(case, name=name, source=src)
+    acc.evals += 1
+    if full['result'][0] != 'ok':
+        acc.violation(c2, 'completes', full['result'], 'the unlimited run does not complete')
+        return
+    n = full['count']
+    for lim in list(range(1, n + 3)):
+        x = run_impl(model, [], lim)
+        acc.evals += 1
+        acc.states += 1
+        acc.transitions += 1
+        acc.traces += 1
+        c3 = dict(c2, limit=lim)
+        if lim >= n:
+            if jm.diff(x, full):
+                acc.violation(c3, full, x, f'limit {lim} >= N = {n} behaves differently from the unlimited run')
+                return
+            continue
+        res = x['result']
+        if res[0] != 'raise' or res[2] != f'{MSG} ({lim})':
+            acc.violation(c3, f'{MSG} ({lim})', res, f'the run starts {n} statements but is not aborted under limit {lim}')
+            return
+        if x['count'] != lim + 1:
+            acc.violation(c3, lim + 1, x['count'], 'statementCount after the abort is not L + 1')
+            return
+        if x['logs'] != full['logs'][:len(x['logs'])]:
+            acc.violation(c3, full['logs'], x['logs'], 'log of the aborted run is not a prefix of the complete run')
+            return
+    acc.nontrivial += 1
+    acc.outcome((name, n))
+
+
+def fam_selfcount(arg):
+    acc = Acc('selfcount')
+    for i in arg:
+        acc.cases += 1
+        check_selfcount({'i': i}, acc)
+        acc.sample({'name': SELFCOUNT[i][0], 'source': SELFCOUNT[i][1]})
+    return acc.result()
+
+
 def include_trees(depth):
     """Every tree of fan-out <= 2 to the depth bound: a tree is a tuple of child trees."""
     if depth == 0:
@@ -580,6 +637,7 @@ def families(tier):
         Family('structured', fam_structured, split(specs, 48), 'parsed counter-controlled nesting chains (global and function scope) x tapes with <= 1 deviation x every limit',
                expected=len(specs)),
         Family('fcond', fam_fcond, split(fspecs, 48), 'the counter-controlled nesting chains with every if/elif/while guard condition computed by a script function (statements run from a condition are counted) x tapes with <= 1 deviation x every limit', expected=len(fspecs)),
+        Family('selfcount', fam_selfcount, [[i] for i in range(len(SELFCOUNT))], 'scripts whose callback count depends on a library algorithm (arraySort comparators): reference-free sweep of every limit against the unlimited run', expected=len(SELFCOUNT)),
         Family('callpaths', fam_callpaths, [[i] for i in range(len(CALLPATHS))], 'hand-written call paths: recursion, callbacks, systemPartial, data helpers with/without variables',
                expected=len(CALLPATHS)),
         Family('includes', fam_includes, inc_shards, f'every include tree of depth <= {depth}, fan-out <= 2 x {{adjacent, separated, inside a loop}} x every limit',
@@ -587,7 +645,7 @@ def families(tier):
     ]
 
 
-_CHECKS = {'fcond': check_fcond, 'lists': check_list, 'fnlists': check_fnlist, 'structured': check_structured, 'callpaths': check_callpath, 'includes': check_include}
+_CHECKS = {'selfcount': check_selfcount, 'fcond': check_fcond, 'lists': check_list, 'fnlists': check_fnlist, 'structured': check_structured, 'callpaths': check_callpath, 'includes': check_include}
 
 
 def replay(family, case):
